@@ -130,6 +130,9 @@ def check_case(case):
         end = 32 + int.from_bytes(raw[12:20], "little") + int.from_bytes(raw[20:28], "little")
         P = layouts.read_archive(raw[:end] if end <= len(raw) else raw, pw, strict=True)
         toks = norm_tokens(P.tokens)
+        if end < len(raw):
+            # the signature header describes the bytes on disk: nothing may be left behind the end header it points at
+            rec["strict_ok"], rec["why"] = False, f"TrailingBytes:{len(raw) - end} bytes of an earlier session left behind the end header"
         got = [(m["name"], m["kind"], m["data"]) for m in P.members]
         if len(got) != len(exp):
             rec["members_equal"], rec["why"] = False, f"{len(got)} members recovered, {len(exp)} written"
